@@ -336,7 +336,10 @@ Proof.
   match goal with |- context [if ?b then (_, V_OUT, tr, _) else _] => destruct b end.
   - intros _ Hst. destruct (state_trig_false tr Hst) as (H1 & H2 & H3 & H4).
     unfold with_fc. cbn [fc]. rewrite H1. exact F.
-  - match goal with |- context [if ?b then (_, V_OUT, tr, _) else _] => destruct b end.
+  - match goal with |- context [if ?b then (_, V_OUT, tr, _) else _] => destruct b end;
+      [intros _ Hst; destruct (state_trig_false tr Hst) as (H1 & H2 & H3 & H4);
+       unfold with_fc; cbn [fc]; rewrite H1; exact F|].
+    match goal with |- context [if ?b then (_, V_OUT, tr, _) else _] => destruct b end.
     + intros _ Hst. destruct (state_trig_false tr Hst) as (H1 & H2 & H3 & H4).
       unfold with_fc. cbn [fc]. rewrite H1, H2, H3, H4. cbn [in_count out_count depth max_depth ftime fsize].
       rewrite <- F. destruct (fc s); reflexivity.
@@ -421,12 +424,12 @@ End pg.
    threshold and main disappeared from the trace. *)
 Definition leak_cfg : cfg :=
   mkcfg [(1, {| t_filter := None; t_depth := None; t_time := Some 1000; t_size := None;
-                t_trace_on := false; t_trace_off := false; t_trace := false; t_caller := false |})]
+                t_trace_on := false; t_trace_off := false; t_trace := false; t_caller := false; t_loc := None; t_finish := false |})]
         false false 1 0 1024 [] PG.
 Definition leak_events : list ev := [Enter 0 100; Enter 1 110; Leave 120; Leave 200].
 Definition cyg_of (c : cfg) : cfg :=
   {| trig_of := trig_of c; fmode_in := fmode_in c; has_caller := has_caller c; gdepth := gdepth c;
-     threshold := threshold c; max_stack := max_stack c; sym_size := sym_size c; shp := CYG |}.
+     threshold := threshold c; max_stack := max_stack c; sym_size := sym_size c; shp := CYG; lmode_in := lmode_in c |}.
 
 Lemma pg_leak_legacy_refuted :
   (* legacy: after b's entry was rejected the filter state differed from the state before the call ... *)
@@ -442,7 +445,7 @@ Proof. vm_compute. repeat split; congruence. Qed.
 (* `-T b@depth=0`: a later sibling c() in the same parent disappeared *)
 Definition leak2_cfg : cfg :=
   mkcfg [(1, {| t_filter := None; t_depth := Some 0; t_time := None; t_size := None;
-                t_trace_on := false; t_trace_off := false; t_trace := false; t_caller := false |})]
+                t_trace_on := false; t_trace_off := false; t_trace := false; t_caller := false; t_loc := None; t_finish := false |})]
         false false 1024 0 1024 [] PG.
 Lemma pg_leak2_legacy_refuted :
   let es := [Enter 0 100; Enter 1 110; Leave 120; Enter 2 130; Leave 140; Leave 200] in
